@@ -17,7 +17,7 @@ pub fn property() -> Property {
             "reference request builder/parser in harness/src/reference/http.rs (RFC 7230 §5.3/§5.4)",
             "H6 verif_parse_and_rewrite calls the private parse_http_request + build_forward_request unchanged",
         ],
-        families: vec![(Box::new(RewriteFam), 30_000, 600_000)],
+        families: vec![(Box::new(RewriteFam), 30_000, 600_000), (Box::new(crate::props::e2e::ProxyFam), 120, 3_000)],
     }
 }
 
@@ -114,8 +114,35 @@ pub fn check_rewrite(req: &ReqGen, pad_to: usize) -> CaseResult {
     );
     ensure!(o.body == req.body, "C17.body", "body prefix changed: {} bytes in, {} bytes kept", req.body.len(), o.body.len());
     if !b.is_connect {
-        let p = parse_forwarded(&o.forward).map_err(|e| Fail::plain("C17.forward", format!("forwarded request does not parse: {e}")))?;
-        ensure!(p.rest.is_empty(), "C17.forward", "bytes after the forwarded header block");
+        let mut all = o.forward.clone();
+        all.extend_from_slice(&o.body);
+        check_forwarded(&req, &b, &all)?;
+    }
+    let v6 = matches!(req.host, HostSpec::V6(_));
+    out.nt((!b.is_connect && !req.headers.is_empty()) || !req.body.is_empty() || v6 || req.port.is_some() || b.header.len() > 60 * 1024);
+    out.class_if(b.is_connect, "connect");
+    out.class_if(v6, "ipv6");
+    out.class_if(req.port.is_some(), "ported");
+    out.class_if(!req.body.is_empty(), "body-prefix");
+    out.class_if(b.header.len() > 60 * 1024, "header>60KiB");
+    out.class_if(matches!(req.form, TargetForm::AbsoluteHttp | TargetForm::AbsoluteHttps) && !b.is_connect, "absolute-form");
+    out.class_if(b.host_line.is_some() && !["Host", "host"].contains(&req.host_header.as_ref().map(|h| h.1.as_str()).unwrap_or("Host")), "host-odd-case");
+    Ok(out)
+}
+
+
+/// What the origin must have received for a non-CONNECT request: the rewritten header block
+/// (same method, origin-form target, version, header lines in order, only Host re-spelled)
+/// followed by exactly the body bytes.
+pub fn check_forwarded(req: &ReqGen, b: &Built, bytes: &[u8]) -> Result<(), Fail> {
+        let p = parse_forwarded(bytes).map_err(|e| Fail::plain("C17.forward", format!("forwarded request does not parse: {e}")))?;
+        ensure!(
+            p.rest == req.body,
+            "C17.body",
+            "{} body bytes followed the header, the origin received {} behind the forwarded header",
+            req.body.len(),
+            p.rest.len()
+        );
         ensure!(p.method == req.method, "C17.forward", "method {:?} forwarded as {:?}", req.method, p.method);
         ensure!(
             p.target == b.origin_target,
@@ -169,17 +196,7 @@ pub fn check_rewrite(req: &ReqGen, pad_to: usize) -> CaseResult {
             want.iter().zip(got.iter()).find(|(a, b)| a != b).map(|x| x.0.clone()),
             want.iter().zip(got.iter()).find(|(a, b)| a != b).map(|x| x.1.clone())
         );
-    }
-    let v6 = matches!(req.host, HostSpec::V6(_));
-    out.nt((!b.is_connect && !req.headers.is_empty()) || !req.body.is_empty() || v6 || req.port.is_some() || b.header.len() > 60 * 1024);
-    out.class_if(b.is_connect, "connect");
-    out.class_if(v6, "ipv6");
-    out.class_if(req.port.is_some(), "ported");
-    out.class_if(!req.body.is_empty(), "body-prefix");
-    out.class_if(b.header.len() > 60 * 1024, "header>60KiB");
-    out.class_if(matches!(req.form, TargetForm::AbsoluteHttp | TargetForm::AbsoluteHttps) && !b.is_connect, "absolute-form");
-    out.class_if(b.host_line.is_some() && !["Host", "host"].contains(&req.host_header.as_ref().map(|h| h.1.as_str()).unwrap_or("Host")), "host-odd-case");
-    Ok(out)
+        Ok(())
 }
 
 #[derive(Clone, Debug, serde::Serialize, serde::Deserialize)]
